@@ -506,6 +506,26 @@ Model queries: `sig` and `delta` (exact op list, literal data compared by length
         let use_cli = i % (if thorough { 10 } else { 6 }) == 0;
         run_pair(w, &p, &rtm, if use_cli { cli.as_ref() } else { None }, true, prop == "C16");
     }
+    // SAME-SIZE REARRANGEMENTS: the source is built only from the basis's own blocks, same total length (blocks swapped, a block
+    // overwritten by a copy of another, a rotation): no literal byte, sizes equal — and yet not the basis. Always through the CLI
+    // file chain too (a front end that takes "no literals, same size" for "unchanged" copies the basis).
+    for bs in [512usize, 2048] {
+        for v in 0..(if thorough { 12 } else { 4 }) {
+            let nb = rng.range(3, 9) as usize;
+            let blocks: Vec<Vec<u8>> = (0..nb).map(|_| block_of(&mut rng, bs, 4)).collect();
+            let basis = blocks.concat();
+            let mut sb = blocks.clone();
+            match v % 4 {
+                0 => { sb.swap(0, nb - 1); }
+                1 => { let j = rng.below(nb as u64 - 1) as usize; sb[j] = sb[j + 1].clone(); }
+                2 => { sb.rotate_left(1); }
+                _ => { let z = sb[0].clone(); for b_ in sb.iter_mut().skip(1).step_by(2) { *b_ = z.clone(); } }
+            }
+            let p = Pair { basis, src: sb.concat(), bs, label: format!("same-size-rearrangement/bs{bs}/{v}"), edit: None };
+            run_pair(w, &p, &rtm, cli.as_ref(), true, prop == "C16");
+            w.count("same-size-rearrangement");
+        }
+    }
     // COPY OFFSETS beyond 4 GiB: a signature (as read from a .sig file) whose blocks carry large indices — the copy offset
     // is index x block size in 64 bits, whatever the size of the basis that produced it
     for (bs, idx) in [(65536usize, 65536u32), (65536, 70_001), (2048, 2_097_152), (512, u32::MAX), (8192, 524_288 + 3)] {
@@ -849,6 +869,39 @@ query = `patch` with full ops; answer = verdict + length and FNV hash of the byt
                 }
                 Some(_) => { if k % 3 != 2 { w.fail(l, "cli-valid-patch-refused", &format!("copia patch refused a valid (basis, delta): {err}")); } }
             }
+        }
+    }
+    // two `copia patch` processes at the same time, same directory, outputs `report.txt` / `report.bin` (same stem): each must
+    // exit 0 only with ITS bytes at ITS output (whatever staging the front end does must not be shared between the two)
+    if let Some(c) = cli.as_ref() {
+        for k in 0..(if thorough { 6 } else { 2 }) {
+            let mk = |rng: &mut Rng, n: usize| { let basis = rng.bytes(n); let mut src = basis.clone(); src.extend(rng.bytes(33)); (basis, src) };
+            let (b1, s1) = mk(&mut rng, (6 << 20) + k * 7); let (b2, s2) = mk(&mut rng, 16 * 1024);
+            let f = |n: &str| c.dir.join(n).to_string_lossy().into_owned();
+            let mut deltas = Vec::new();
+            for (tag, b, s_) in [("1", &b1, &s1), ("2", &b2, &s2)] {
+                let sig = Signature::generate(&mut Cursor::new(b), 4096).expect("sig");
+                let d = CopiaSync::new().delta(Cursor::new(s_), &sig).expect("delta");
+                std::fs::write(f(&format!("cb{tag}")), b).ok();
+                std::fs::write(f(&format!("cd{tag}")), bincode::serialize(&d).expect("ser")).ok();
+                deltas.push(d);
+            }
+            let _ = std::fs::remove_file(f("report.txt")); let _ = std::fs::remove_file(f("report.bin"));
+            let bin = c.bin.clone();
+            let spawn = |b: String, d: String, o: String| std::process::Command::new(&bin).args(["patch", &b, &d, "-o", &o]).stdout(std::process::Stdio::null()).stderr(std::process::Stdio::null()).spawn();
+            let (c1, c2) = (spawn(f("cb1"), f("cd1"), f("report.txt")), spawn(f("cb2"), f("cd2"), f("report.bin")));
+            let r1 = c1.ok().and_then(|mut ch| ch.wait().ok()).and_then(|st| st.code());
+            let r2 = c2.ok().and_then(|mut ch| ch.wait().ok()).and_then(|st| st.code());
+            w.count("cli-patch-concurrent-same-stem");
+            for (rc, out, want, d) in [(r1, "report.txt", &s1, &deltas[0]), (r2, "report.bin", &s2, &deltas[1])] {
+                if rc == Some(0) {
+                    let o = std::fs::read(f(out)).unwrap_or_default();
+                    if StrongHash::compute(&o).as_bytes() != d.checksum.as_bytes() {
+                        w.fail(0, "cli-success-on-wrong-bytes", &format!("two concurrent `copia patch` runs with outputs report.txt / report.bin: the run for {out} exited 0 but {out} holds {} bytes that do not hash to its delta's checksum (its source has {} bytes)", o.len(), want.len()));
+                    }
+                }
+            }
+            for n in ["cb1", "cb2", "cd1", "cd2", "report.txt", "report.bin"] { let _ = std::fs::remove_file(f(n)); }
         }
     }
     // an output that takes NO bytes (`/dev/full`: every write fails with ENOSPC): `copia patch` must not report success, whatever the
